@@ -62,6 +62,10 @@ def run(data):
             elif k == "uanon":
                 a, b = tracked[op[1]], tracked[op[2]]
                 o = a * b if op[3] == "mul" else (a / b if op[3] == "div" else a ** op[4])
+            elif k == "uresolve":
+                o = Unit.resolve_symbol(op[1])
+                if Unit.parse(op[1]) is not o:
+                    raise RuntimeError("Unit.parse and Unit.resolve_symbol disagree on " + op[1])
             elif k == "pdecl":
                 o = Prefix(op[1], op[2], name=op[3], symbol=op[4]) if (op[3] or op[4]) else Prefix(op[1], op[2])
             elif k == "dderive":
